@@ -4,6 +4,7 @@
 -/
 import Fca.Drv.Util
 import Fca.Model.SofiaApprox
+import Fca.Model.RFTree
 import Fca.Spec.C15
 open Lean
 namespace Fca.Drv.C15
@@ -78,6 +79,91 @@ def rfH : Handler := fun j => do
     ("nonclosed", Json.arr (nonclosed.map fun A => Json.arr #[jNats A, jNats (Spec.closure t A)]).toArray),
     ("bottom", jNats (Spec.extAll t (Spec.intAll t [])))])
 
-def handlers : List (String × Handler) := [("C15.sofia", sofiaH), ("C15.tree", treeH), ("C15.rf", rfH)]
+/-! ### the fitted trees inside the model (`Fca/Model/RFTree.lean`) -/
+
+def ratOf (v : Json) : Except String Rat := do
+  match (← arr v) with
+  | [a, b] => do
+    let n ← a.getInt?
+    let d ← b.getNat?
+    if d = 0 then throw "zero denominator" else pure (mkRat n d)
+  | _ => throw "rational must be [num, den]"
+
+def ratList (v : Json) : Except String (List Rat) := do (← arr v).mapM ratOf
+
+def jRat (q : Rat) : Json := Json.arr #[Json.num (JsonNumber.fromInt q.num), Json.num (JsonNumber.fromNat q.den)]
+
+/-- `"trees": [{"left":[..],"right":[..],"feature":[..],"threshold":[[num,den],..]}, ..]` (node values are not read by
+    `decision_path`: zeros) -/
+def getTrees (j : Json) : Except String (List DL.Tree) := do
+  (← arr (← j.getObjVal? "trees")).mapM fun t => do
+    let left ← intList (← t.getObjVal? "left")
+    let right ← intList (← t.getObjVal? "right")
+    let feature ← intList (← t.getObjVal? "feature")
+    let threshold ← ratList (← t.getObjVal? "threshold")
+    pure ⟨left, right, feature, threshold, left.map fun _ => 0⟩
+
+/-- first entry where two 0/1 matrices differ -/
+def firstDiff (A B : List (List Bool)) : Option (Nat × Nat) :=
+  ((List.range (max A.length B.length)).filterMap fun g =>
+    let a := A.getD g []
+    let b := B.getD g []
+    ((List.range (max a.length b.length)).find? fun j => a[j]? != b[j]?).map fun j => (g, j)).head?
+
+def jDiff : Option (Nat × Nat) → Json
+  | none => Json.null
+  | some (g, j) => jNats [g, j]
+
+def jIDescrs (ds : List RF.IDescr) : Json :=
+  Json.arr (ds.map fun d => match d with
+    | none => Json.null
+    | some (lo, hi) => Json.arr #[jRat lo, jRat hi]).toArray
+
+/-- `{"op":"C15.paths","X":[[[num,den],..],..],"trees":[..],"M":[[0/1,..],..]}` — `X` is the matrix the tree sees
+    (float32 values, exact) → `{"paths_equal":bool,"diff":[g,j]|null,"forest_ok":bool,"exts":[[rows],..]}`:
+    the model's `decision_path` (`RF.pathMatrix`) against sklearn's, and the model's distinct node row sets -/
+def pathsH : Handler := fun j => do
+  let X ← (← arr (← j.getObjVal? "X")).mapM ratList
+  let ts ← getTrees j
+  let M ← getMatrix j "M"
+  let Mm := RF.pathMatrix ts X
+  pure (Json.mkObj [("paths_equal", Json.bool (Mm == M)), ("diff", jDiff (firstDiff Mm M)),
+    ("forest_ok", Json.bool (RF.forestOK ts)), ("exts", jNatss (treeExtents Mm (RF.nNodes ts)))])
+
+/-- `{"op":"C15.rfmv","D":[[[[n,d],[n,d]],..],..],"k":k,"cast":[[[n,d],[n,d]],..],"trees":[..],"M":[[0/1]..],
+      "out":[[rows],..]}` — the many-valued context with interval cells, the float32 table, the fitted forest, sklearn's
+    `decision_path` matrix and the extents returned by the implementation →
+    `{"hyp":{"rect","point","cast","forest","k_pos"}, "paths_equal", "diff", "model":[[ext,[[lo,hi]|null,..]],..],
+      "nonclosed":[[ext,closure],..], "has_top":bool}` (closure = the interval pattern-structure closure on the exact
+    rationals, `RF.closure`) -/
+def rfmvH : Handler := fun j => do
+  let D : RF.IRows ← (← arr (← j.getObjVal? "D")).mapM fun row => do
+    (← arr row).mapM fun c => do
+      match (← arr c) with
+      | [a, b] => pure ((← ratOf a), (← ratOf b))
+      | _ => throw "cell must be [from, to]"
+  let k ← getNat j "k"
+  let tbl : List (Rat × Rat) ← (← arr (← j.getObjVal? "cast")).mapM fun p => do
+    match (← arr p) with
+    | [a, b] => pure ((← ratOf a), (← ratOf b))
+    | _ => throw "cast entry must be [value, float32(value)]"
+  let ts ← getTrees j
+  let M ← getMatrix j "M"
+  let exts ← (← arr (← j.getObjVal? "out")).mapM natList
+  let cast := RF.castOfList tbl
+  let Mm := RF.pathMatrix ts (RF.castRows cast (RF.toNumeric D))
+  let model := RF.rfConceptsMV D k cast ts
+  let nonclosed := exts.filter fun A => !(RF.closure D k A == A)
+  pure (Json.mkObj [
+    ("hyp", Json.mkObj [("rect", Json.bool (RF.rect D k)), ("point", Json.bool (RF.pointValued D)),
+      ("cast", Json.bool (RF.castTableOK tbl D)), ("forest", Json.bool (RF.forestOK ts)),
+      ("k_pos", Json.bool (decide (0 < k)))]),
+    ("paths_equal", Json.bool (Mm == M)), ("diff", jDiff (firstDiff Mm M)),
+    ("model", Json.arr (model.map fun c => Json.arr #[jNats c.1, jIDescrs c.2]).toArray),
+    ("nonclosed", Json.arr (nonclosed.map fun A => Json.arr #[jNats A, jNats (RF.closure D k A)]).toArray),
+    ("has_top", Json.bool (exts.contains (List.range D.length)))])
+
+def handlers : List (String × Handler) :=
+  [("C15.sofia", sofiaH), ("C15.tree", treeH), ("C15.rf", rfH), ("C15.paths", pathsH), ("C15.rfmv", rfmvH)]
 
 end Fca.Drv.C15
